@@ -52,6 +52,7 @@ def weave_trigger(u, props=('C10',)):
 
     st = u.item('src/trigger.rs', ['struct PeriodicTrigger'])
     st.drop_attrs()   # derive(Clone, Copy, Debug), repr(transparent): no behaviour
+    st.replace('pub ( crate ) struct', 'pub struct', 'T9-visibility')
     u.text('impl Clone for PeriodicTrigger { #[verifier::external_body] fn clone(&self) -> (r: Self) ensures r == *self { *self } }\n'
            'impl Copy for PeriodicTrigger {}\n')
     u.dropped.append('trigger.rs: #[derive(Clone, Copy, Debug)] #[repr(transparent)] on PeriodicTrigger '
